@@ -112,6 +112,77 @@ type fakeStateMgr struct {
 	// goroutine ids (harness bookkeeping for the goroutine snapshots below): the goroutine that called GetLiveNode
 	// last - the replicator's - and the goroutine that runs the current / last node-startup event
 	callerGID, notifierGID atomic.Int64
+	// offlinePolls counts the "not live" answers this manager has given; pollsAtEvent is its value when the last node
+	// event (startup / failure) was processed. A replicator that is told "not live" has to wait for the follower's
+	// node-startup event: the real IsReady asks twice (check, re-check under the suspend flag) and then blocks.
+	offlinePolls, pollsAtEvent atomic.Int64
+}
+
+// spinPolls: that many "not live" answers to one replicator in a row, with no node event in between and the caller
+// never blocking for the online notification, is a replicator that polls / recurses instead of parking (a parking one
+// gets 2). A count of logical events, not a duration.
+const spinPolls = 64
+
+// spinObs is what was seen of a replicator that does not park while its follower is offline.
+type spinObs struct {
+	Polls         int64  // "not live" answers it received in this offline period without parking
+	IsReadyFrames int    // activations of remoteReplicator.IsReady on its goroutine's stack (elided frames included)
+	Header        string // the goroutine's status line
+	Recursing     bool   // IsReadyFrames > 50: IsReady calls itself without ever returning or blocking
+	Released      bool   // harness action after the verdict: the follower was made live, the goroutine unwound and returned
+}
+
+// isReadyFrames counts the activations of remoteReplicator.IsReady on one goroutine's stack. A traceback of more than
+// 100 frames prints the innermost and outermost 50 and "...N frames elided..."; on a stack that deep everything between
+// two IsReady frames is IsReady too, so the elided ones are added.
+func isReadyFrames(g string) int {
+	n := strings.Count(g, "(*remoteReplicator).IsReady(")
+	if i := strings.Index(g, " frames elided..."); i > 0 {
+		j := strings.LastIndex(g[:i], "...")
+		if j >= 0 {
+			if k, err := strconv.Atoi(g[j+3 : i]); err == nil && n >= 50 {
+				n += k
+			}
+		}
+	}
+	return n
+}
+
+// replicatorSpinning decides, from the count of "not live" answers since base and one goroutine snapshot, whether the
+// replicator's goroutine (the one that asked this manager last) keeps asking instead of waiting for the follower's
+// online notification: it has been told "not live" at least spinPolls times and it does not stand blocked receiving
+// inside IsReady. No clock is involved.
+func (m *fakeStateMgr) replicatorSpinning(base int64) (spinObs, bool) {
+	so := spinObs{Polls: m.offlinePolls.Load() - base}
+	if so.Polls < spinPolls {
+		return so, false
+	}
+	id := m.callerGID.Load()
+	for _, g := range goroutineDump() {
+		if gidOf(g) != id {
+			continue
+		}
+		if i := strings.IndexByte(g, '\n'); i >= 0 {
+			so.Header = g[:i]
+		}
+		if !strings.Contains(g, "(*remoteReplicator).IsReady") {
+			return so, false // it has left IsReady
+		}
+		if goroutineWaits(g, "chan receive") {
+			if i := strings.Index(g, "(*remoteReplicator).IsReady"); !strings.Contains(g[:i], "\nmain.") {
+				return so, false // parked after all
+			}
+		}
+		so.IsReadyFrames = isReadyFrames(g)
+		so.Recursing = so.IsReadyFrames > 50
+		if !so.Recursing && !goroutineWaits(g, "running", "runnable") {
+			// inside IsReady, asked many times, but blocked on something at this instant (a lock, a timer ...): not
+			// decided by this snapshot; the caller looks again as long as the count stands
+			return so, false
+		}
+		return so, true
+	}
+	return so, false
 }
 
 // curGID returns the id of the calling goroutine.
@@ -159,6 +230,7 @@ func (m *fakeStateMgr) GetLiveNode(nodeID models.NodeID) (models.StatefulNode, b
 	node := m.followerNode()
 	m.mutex.RUnlock()
 	if !live {
+		m.offlinePolls.Add(1)
 		m.hookMu.Lock()
 		h := m.afterOfflineAnswer
 		m.afterOfflineAnswer = nil
@@ -194,6 +266,7 @@ func (m *fakeStateMgr) nodeStartup(moved bool, onLocked func()) {
 		m.w.fPort.Add(1)
 	}
 	m.live.Store(true)
+	m.pollsAtEvent.Store(m.offlinePolls.Load())
 	for _, fn := range m.watchers {
 		fn(models.NodeOnline)
 	}
@@ -209,6 +282,7 @@ func (m *fakeStateMgr) nodeFailure() (wasLive, closedConn bool, killedStreams in
 	}
 	node := m.followerNode()
 	m.live.Store(false)
+	m.pollsAtEvent.Store(m.offlinePolls.Load())
 	for _, fn := range m.watchers {
 		fn(models.NodeOffline)
 	}
@@ -1045,6 +1119,10 @@ type world struct {
 	// that lock) wait for each other - see notifierDeadlocked
 	deadlocked         bool
 	recheckWindowFired bool // the directed schedule onlineRecheckRace delivered its event inside the window
+	// spin: the last Prepare neither parked nor returned while the follower was offline - see replicatorSpinning
+	spin *spinObs
+	// prepPolls: "not live" answers the last Prepare that parked had received when it parked
+	prepPolls int64
 }
 
 func (w *world) followerAddr() string {
@@ -1257,14 +1335,26 @@ func (w *world) prepare() (ready, parked bool) {
 	}
 	res := make(chan bool, 1)
 	r := w.lRep
+	m := w.lSM
+	pollBase := m.offlinePolls.Load()
+	w.prepPolls = 0
 	go func() { res <- replica.VerifReplicaPrepare(r) }()
 	// IsReady either returns or parks on its suspend channel after having published the "offline" state.
-	// Both are recognised from state, not from time.
+	// Both are recognised from state, not from time. A third outcome is an IsReady that does neither while the follower
+	// is offline: it keeps asking the state manager (recursing or looping) - recognised from the number of "not live"
+	// answers it has received and where its goroutine stands.
 	for i := 0; ; i++ {
 		select {
 		case ok := <-res:
 			return ok, false
 		default:
+		}
+		if m.offlinePolls.Load()-pollBase >= spinPolls && m.recheckWindow.Load() != rwNotifier {
+			if so, spinning := m.replicatorSpinning(pollBase); spinning {
+				w.spin = &so
+				w.releaseSpinner(res, &so)
+				return false, false
+			}
 		}
 		st, msg := replica.VerifReplicatorStateType(r)
 		if st == int(models.ReplicatorFailureState) && msg == offlineMsg {
@@ -1294,6 +1384,7 @@ func (w *world) prepare() (ready, parked bool) {
 				// called parked before that could still see a later liveness change of a leader incarnation that is gone
 				if i%20 == 10 && w.lSM.replicatorParkedOnSuspend() {
 					w.parked = res
+					w.prepPolls = m.offlinePolls.Load() - pollBase
 					return false, true
 				}
 				pace(i)
@@ -1314,6 +1405,19 @@ func (w *world) prepare() (ready, parked bool) {
 			}
 		}
 		pace(i)
+	}
+}
+
+// releaseSpinner is a harness action AFTER the verdict "spins": the sequence is over, and a goroutine that recurses
+// for ever would end the whole child process (stack overflow) and the other sequences of its batch with it. The
+// follower is made live (no event, no notification): the replicator's next question is answered "live", IsReady goes on
+// with its handshake and all its activations return. The wait is a watchdog, nothing is judged by it.
+func (w *world) releaseSpinner(res chan bool, so *spinObs) {
+	w.live.Store(true)
+	select {
+	case <-res:
+		so.Released = true
+	case <-time.After(60 * time.Second):
 	}
 }
 
